@@ -1,6 +1,8 @@
 (* C06 -- results do not depend on what was parsed or called before; the process-wide settings a caller
    can observe are exactly what the caller last set.
    Model: theories/Globals.v (cells, primitive events, brackets; bodies are arbitrary strategies).
+   Cells: token stash, push-back list, log.raiseExceptions, global serializer (identity, prefs, _level,
+   selector memo), DX production, tokenizer cache, css_parser.profile, level/handlers of css_parser.log.
    [current] = the bracket table regenerated from /repo's working tree (Gen/GlobalSites.v);
    [pinned]  = the table of the tree as pinned, before the C06 fix: commits.
 
@@ -8,54 +10,45 @@
    on the same or another parser object; [fuel] bounds the size of one top-level activation tree
    (fuel 0 runs nothing at all).  Callbacks that change the caller's settings are excluded (TNestSet).
 
-   Full statements:
+   Full statements, both proved for the current tree:
      history_independent    : forall fuel hist c, result current fuel (run current fuel hist G0) c
                                              = result current fuel (run current fuel (setters hist) G0) c
        (setters hist = the caller's own settings in hist; for a history without any:  = result (run [] G0) c)
      caller_settings_stable : forall fuel hist, fuel <> 0 ->
-                                observable (run current fuel hist G0) = last_set_by_caller hist
-   The first is refuted in every tree by the never-reset selector memo of the experimental
-   indentSpecificities preference (history_independent_refuted) and proved for all histories in which
-   the caller does not switch that preference on (history_independent_partial); the second is proved in full. *)
+                                observable (run current fuel hist G0) = last_set_by_caller hist *)
 From CssV Require Import Base Globals GlobalsFacts Gen.GlobalSites.
 
 Theorem current_tree_well_bracketed : well_bracketed current = true.
 Proof. vm_compute. reflexivity. Qed.
 Print Assumptions current_tree_well_bracketed.
 
-Theorem history_independent_partial :
-  forall fuel hist c, no_indent hist = true ->
+Theorem history_independent :
+  forall fuel hist c,
     result current fuel (run current fuel hist G0) c = result current fuel (run current fuel (setters hist) G0) c.
 Proof. exact (history_independent_gen current current_tree_well_bracketed). Qed.
-Print Assumptions history_independent_partial.
+Print Assumptions history_independent.
 
-Theorem history_independent_partial_nosetters :
-  forall fuel hist c, setters hist = [] -> no_indent hist = true ->
+Theorem history_independent_nosetters :
+  forall fuel hist c, setters hist = [] ->
     result current fuel (run current fuel hist G0) c = result current fuel (run current fuel [] G0) c.
 Proof. exact (history_independent_nosetters current current_tree_well_bracketed). Qed.
-Print Assumptions history_independent_partial_nosetters.
-
-Theorem history_independent_refuted :
-  exists fuel hist c, result current fuel (run current fuel hist G0) c <> result current fuel (run current fuel (setters hist) G0) c.
-Proof. exists 5%nat, memo_hist, memo_call. exact (memo_dependent current). Qed.
-Print Assumptions history_independent_refuted.
+Print Assumptions history_independent_nosetters.
 
 Theorem caller_settings_stable :
   forall fuel hist, fuel <> O -> observable (run current fuel hist G0) = last_set_by_caller hist.
 Proof. exact (caller_settings_stable_gen current current_tree_well_bracketed). Qed.
 Print Assumptions caller_settings_stable.
 
+(* trees with one incomplete bracket each: the statements fail *)
 (* the tree as pinned *)
 Theorem history_independent_pinned_refuted_stash :
-  exists hist c, no_indent hist = true /\
-    result pinned 10 (run pinned 10 hist G0) c <> result pinned 10 (run pinned 10 (setters hist) G0) c.
-Proof. exists stash_hist, stash_call. split; [reflexivity | exact pinned_stash]. Qed.
+  exists hist c, result pinned 10 (run pinned 10 hist G0) c <> result pinned 10 (run pinned 10 (setters hist) G0) c.
+Proof. exists stash_hist, stash_call. exact pinned_stash. Qed.
 Print Assumptions history_independent_pinned_refuted_stash.
 
 Theorem history_independent_pinned_refuted_flag :
-  exists hist c, no_indent hist = true /\
-    result pinned 10 (run pinned 10 hist G0) c <> result pinned 10 (run pinned 10 (setters hist) G0) c.
-Proof. exists flag_hist, flag_call. split; [reflexivity | exact pinned_flag]. Qed.
+  exists hist c, result pinned 10 (run pinned 10 hist G0) c <> result pinned 10 (run pinned 10 (setters hist) G0) c.
+Proof. exists flag_hist, flag_call. exact pinned_flag. Qed.
 Print Assumptions history_independent_pinned_refuted_flag.
 
 Theorem caller_settings_stable_pinned_refuted_flag :
@@ -73,21 +66,38 @@ Theorem caller_settings_stable_pinned_refuted_csscombine :
 Proof. exists combine_hist. exact pinned_combine_settings. Qed.
 Print Assumptions caller_settings_stable_pinned_refuted_csscombine.
 
-(* a tree whose brackets are all complete but which keeps the flag to write back on the parser object
-   instead of in the frame of the running parse: wrong under re-entrant use of one parser object *)
+(* the selector memo before it was scoped to one sheet serialization (fix: commit of this round) *)
+Theorem history_independent_unscoped_memo_refuted :
+  exists hist c, result unscoped 5 (run unscoped 5 hist G0) c <> result unscoped 5 (run unscoped 5 (setters hist) G0) c.
+Proof. exists memo_hist, memo_call. exact unscoped_memo. Qed.
+Print Assumptions history_independent_unscoped_memo_refuted.
+
+(* the saved flag kept on the parser object instead of in the frame of the running parse: re-entrant use *)
 Theorem caller_settings_stable_onself_refuted_reentrant :
   exists hist, observable (run onself 10 hist G0) <> last_set_by_caller hist.
 Proof. exists reentrant_hist. exact onself_reentrant_settings. Qed.
 Print Assumptions caller_settings_stable_onself_refuted_reentrant.
 
-(* non-vacuity: a history that leaks a token, raises inside a parse and inside csscombine, changes
-   settings, parses re-entrantly on one parser object to depth 2 -- followed by a call that reads every
-   cell, also from inside a callback *)
+(* the tokenizer cache keyed on macro names only / not cleared when settings.set changes PRODUCTIONS *)
+Theorem history_independent_nameskey_refuted :
+  exists hist c, result nameskey 5 (run nameskey 5 hist G0) c <> result nameskey 5 (run nameskey 5 (setters hist) G0) c.
+Proof. exists cache_hist, cache_call. exact nameskey_cache. Qed.
+Print Assumptions history_independent_nameskey_refuted.
+
+Theorem history_independent_noclear_refuted :
+  exists hist c, result noclear 5 (run noclear 5 hist G0) c <> result noclear 5 (run noclear 5 (setters hist) G0) c.
+Proof. exists noclear_hist, noclear_call. exact noclear_cache. Qed.
+Print Assumptions history_independent_noclear_refuted.
+
+(* non-vacuity: a history that leaks a token, raises inside a parse and inside csscombine, changes every
+   setting, serialises with indentSpecificities on, fills the tokenizer cache, parses re-entrantly on one
+   parser object to depth 2 -- followed by a call that reads every cell, also from inside a callback *)
 Example history_independent_nonvacuous :
-  no_indent busy_hist = true /\
   result current 20 (run current 20 busy_hist G0) busy_call =
-    [([ONone; OTok None; OTok None; OFlag false; OSer 3 4 0 0 None; ODx true;
-       ONest [([OFlag false; ONone; OTok None], TRet)]; OFlag false], TRet)] /\
+    [([ONone; OTok None; OTok None; OFlag false 4; OSer 3 5 0 0 (Some 0%N); OSer 3 5 0 1 (Some 1%N);
+       OCfg ((0, 0), 1)%N; OCfg ((7, 1), 3)%N; OProf 6;
+       ONest [([OFlag false 4; ONone; OTok None; OSer 3 5 0 0 (Some 0%N)], TRet)]; OFlag false 4], TRet)] /\
   result current 20 (run current 20 busy_hist G0) busy_call = result current 20 (run current 20 (setters busy_hist) G0) busy_call /\
-  observable (run current 20 busy_hist G0) = last_set_by_caller busy_hist.
+  observable (run current 20 busy_hist G0) = last_set_by_caller busy_hist /\
+  last_set_by_caller busy_hist = (false, 3%N, 5%N, true, 6%N, 4%N).
 Proof. vm_compute. repeat split. Qed.
